@@ -50,6 +50,15 @@ def gen_calls(rng, n):
             call["positional"] = True
         if rng.random() < 0.2:
             call["sched_tuple"] = True
+        elif rng.random() < 0.2:
+            call["sched_iter"] = True            # the schedule as a one-shot iterator
+        if rng.random() < 0.25:
+            call["in_order_form"] = rng.choice(["int", "np"])     # in_order as 0/1 or a numpy bool
+        if fn == "anneal_quso" and len(terms) >= 3 and rng.random() < 0.12 and "scale_exp" not in call:
+            # couplings of very different magnitude (2^25 next to 1): whatever the kernel caches must stay exact
+            for t_ in terms:
+                if len(t_[0]) == 2:
+                    t_[1] *= 2 ** 25
         if rng.random() < 0.15:
             # real coefficients far below 1: the whole model and the temperatures scaled by 2^-43 or 2^-30 (exact in binary
             # floating point); the record keeps the numerators, so the specification sees the same small integers
@@ -147,6 +156,9 @@ def to_record(call, out, tid):
            "init": m.get("init", []), "api": api, "api2": api2, "ev2_equal": bool(out.get("ev2_equal", False)),
            "ev": evs, "complete": True, "raised": out.get("raised", "") or out.get("raised2", ""), "badnum": badnum}
     rec["kernel_only"] = False
+    sch = call["kwargs"].get("schedule")
+    rec["has_sched"] = isinstance(sch, list) and bool(m)
+    rec["sched_user"] = [bool(T > 0) for T in sch] if isinstance(sch, list) else []
     rec.update(mi)
     return rec
 
@@ -198,7 +210,7 @@ def repo_test_records(so, wd, out):
         rec = {"tid": len(recs) + 1, "id": o["id"], "fn": "repo-test", "kind": "kernel", "den": 4, "matrix": True,
                "user": [[sorted(k), v] for k, v in kt.items()], "pi": list(range(N)), "inorder": bool(m["in_order"]),
                "tpos": [bool(T > 0) for T in m["Ts"]], "init": m["init"], "api": api, "api2": api, "ev2_equal": True, "ev": evs,
-               "complete": False, "raised": "", "badnum": "", "kernel_only": True}
+               "complete": False, "raised": "", "badnum": "", "kernel_only": True, "has_sched": False, "sched_user": []}
         rec.update(mi)
         recs.append(rec)
     return recs
